@@ -1,2 +1,745 @@
-(* C10 - proofs (under construction) *)
-From TT Require Import Lib.Base Lib.Bytestr Model.StreamRec Spec.C10 Corr.C10.
+(* Lemmas behind Props/C10.v (and reused by C09). *)
+From Coq Require Import String.
+From TT Require Import Lib.Base Lib.Bytestr Gen.Streamtabs Model.StreamRec Spec.C10 Corr.C10.
+Open Scope list_scope.
+
+(* ================= facts about the live tables (Gen/Streamtabs.v), by computation ================= *)
+Lemma final_table : forall st, final st = is_final st.
+Proof. intros [[]|]; vm_compute; reflexivity. Qed.
+
+Lemma outcome_table : forall st, outcome_of st = spec_outcome st.
+Proof. intros []; vm_compute; reflexivity. Qed.
+
+(* the list named by each status *)
+Definition spec_bucket (st : status) : option bucket :=
+  match st with
+  | Fail | Inprogress | Unknown => Some BErrors
+  | Skip => Some BSkipped | Xfail => Some BExpectedFailures | Uxsuccess => Some BUnexpectedSuccesses
+  | Success | Exists => None
+  end.
+Lemma bucket_table : forall st, bucket_of st = Some (spec_bucket st).
+Proof. intros []; vm_compute; reflexivity. Qed.
+
+(* every final state and 'inprogress' has a handler in StreamSummary; the only status
+   without an entry in _status_map is 'exists' *)
+Lemma handlers_cover_states :
+  forallb (fun s => existsb (String.eqb s) summary_keys) ("inprogress"%string :: final_states) = true.
+Proof. vm_compute; reflexivity. Qed.
+Lemma states_are_the_eight :
+  forall s, In s final_states <-> exists st, st <> Inprogress /\ status_name st = s.
+Proof.
+  intro s; split.
+  - intro H. vm_compute in H.
+    repeat (destruct H as [H|H]; [subst s|]); try contradiction;
+      [exists Exists | exists Fail | exists Skip | exists Success | exists Unknown | exists Uxsuccess | exists Xfail];
+      (split; [discriminate|reflexivity]).
+  - intros [[] [Hn <-]]; vm_compute; tauto.
+Qed.
+Lemma fail_replays_as_failure : outcome_of Fail = Some AddFailure.
+Proof. vm_compute; reflexivity. Qed.
+(* both addError and addFailure travel as 'fail' *)
+Lemma e2s_words :
+  map (fun o => slookup (outcome_name o) e2s_status_word) all_outcomes
+  = map (fun s => Some (status_name s)) [Success; Fail; Fail; Skip; Xfail; Uxsuccess].
+Proof. vm_compute; reflexivity. Qed.
+
+(* ================= boolean equalities ================= *)
+Lemma status_eqb_spec a b : status_eqb a b = true <-> a = b.
+Proof. destruct a, b; simpl; split; intro H; try reflexivity; try discriminate. Qed.
+Lemma outcome_eqb_spec a b : outcome_eqb a b = true <-> a = b.
+Proof. destruct a, b; simpl; split; intro H; try reflexivity; try discriminate. Qed.
+Lemma key_eqb_spec a b : key_eqb a b = true <-> a = b.
+Proof.
+  destruct a as [a1 a2], b as [b1 b2]. unfold key_eqb; simpl. rewrite andb_true_iff, Nat.eqb_eq.
+  rewrite (option_eqb_spec Nat.eqb Nat.eqb_eq). split; [intros [-> ->]; reflexivity | intro H; inversion H; auto].
+Qed.
+Lemma key_eqb_refl k : key_eqb k k = true.
+Proof. apply key_eqb_spec; reflexivity. Qed.
+Lemma key_eqb_sym a b : key_eqb a b = key_eqb b a.
+Proof.
+  destruct (key_eqb a b) eqn:E1, (key_eqb b a) eqn:E2; try reflexivity.
+  - apply key_eqb_spec in E1; subst. rewrite key_eqb_refl in E2; discriminate.
+  - apply key_eqb_spec in E2; subst. rewrite key_eqb_refl in E1; discriminate.
+Qed.
+
+Lemma detail_eqb_spec a b : detail_eqb a b = true <-> a = b.
+Proof.
+  apply pair_eqb_spec; [exact Nat.eqb_eq|]. apply pair_eqb_spec; [exact Nat.eqb_eq | exact String.eqb_eq].
+Qed.
+Lemma nats_eqb_spec a b : list_eqb Nat.eqb a b = true <-> a = b.
+Proof. apply list_eqb_spec. exact Nat.eqb_eq. Qed.
+Lemma onat_eqb_spec a b : option_eqb Nat.eqb a b = true <-> a = b.
+Proof. apply option_eqb_spec. exact Nat.eqb_eq. Qed.
+Lemma details_eqb_spec a b : list_eqb detail_eqb a b = true <-> a = b.
+Proof. apply list_eqb_spec. exact detail_eqb_spec. Qed.
+
+Lemma rec_eqb_spec a b : rec_eqb a b = true <-> a = b.
+Proof.
+  unfold rec_eqb.
+  rewrite (pair_eqb_spec _ _ Nat.eqb_eq
+            (pair_eqb_spec _ _ nats_eqb_spec
+              (pair_eqb_spec _ _ details_eqb_spec
+                (pair_eqb_spec _ _ status_eqb_spec
+                  (pair_eqb_spec _ _ onat_eqb_spec onat_eqb_spec))))).
+  destruct a, b; unfold rec_tuple; simpl. split; intro H; inversion H; reflexivity.
+Qed.
+Lemma recs_eqb_spec a b : list_eqb rec_eqb a b = true <-> a = b.
+Proof. apply list_eqb_spec. exact rec_eqb_spec. Qed.
+
+Lemma lev_eqb_spec a b : lev_eqb a b = true <-> a = b.
+Proof.
+  destruct a, b; simpl; try (split; intro H; [discriminate | inversion H]); try (split; reflexivity).
+  - rewrite Nat.eqb_eq. split; [intros ->; reflexivity | intro H; inversion H; reflexivity].
+  - rewrite andb_true_iff, !nats_eqb_spec. split; [intros [-> ->]; reflexivity | intro H; inversion H; auto].
+  - rewrite Nat.eqb_eq. split; [intros ->; reflexivity | intro H; inversion H; reflexivity].
+  - rewrite !andb_true_iff, outcome_eqb_spec, Nat.eqb_eq, nats_eqb_spec, details_eqb_spec.
+    split; [intros [[[-> ->] ->] ->]; reflexivity | intro H; inversion H; auto].
+  - rewrite Nat.eqb_eq. split; [intros ->; reflexivity | intro H; inversion H; reflexivity].
+Qed.
+Lemma levs_eqb_spec a b : list_eqb lev_eqb a b = true <-> a = b.
+Proof. apply list_eqb_spec. exact lev_eqb_spec. Qed.
+
+Lemma sum_eqb_spec a b : sum_eqb a b = true <-> a = b.
+Proof.
+  unfold sum_eqb, ids_eqb.
+  rewrite (pair_eqb_spec _ _ Nat.eqb_eq
+            (pair_eqb_spec _ _ nats_eqb_spec
+              (pair_eqb_spec _ _ nats_eqb_spec
+                (pair_eqb_spec _ _ nats_eqb_spec
+                  (pair_eqb_spec _ _ nats_eqb_spec
+                    (pair_eqb_spec _ _ nats_eqb_spec bool_eqb_spec)))))).
+  destruct a, b; unfold sum_tuple; simpl. split; intro H; inversion H; reflexivity.
+Qed.
+
+Theorem obs_eqb_spec a b : obs_eqb a b = true <-> alpha a = alpha b.
+Proof.
+  unfold obs_eqb, alpha. rewrite !andb_true_iff, recs_eqb_spec, sum_eqb_spec, levs_eqb_spec.
+  split; [intros [[-> ->] ->]; reflexivity | intro H; inversion H; auto].
+Qed.
+
+(* ================= the record of a segment ================= *)
+Lemma last_cons {A} (r : list A) c p : last (c :: r) p = last r c.
+Proof.
+  revert c p; induction r as [|x r IH]; intros c p; [reflexivity|].
+  change (last (c :: x :: r) p) with (last (x :: r) p). rewrite !IH. reflexivity.
+Qed.
+Lemma last_app_opt {A} (o : option A) (l : list A) d :
+  last ((match o with Some x => [x] | None => [] end) ++ l) d = last l (match o with Some x => x | None => d end).
+Proof. destruct o; [apply last_cons | reflexivity]. Qed.
+
+Section Records.
+  Variable M : Type.
+  Variable CT : Type.
+  Variable parse : option M -> CT.
+  Notation event := (event M).
+  Notation rcd := (rcd CT).
+  Notation chunk := (chunk M).
+
+  Definition addc (d : list (nat * (CT * string))) (c : chunk) := add_bytes parse (fst (fst c)) (snd (fst c)) (snd c) d.
+
+  (* running _update_case over a list of events, field by field *)
+  Lemma fold_upd (seg : list event) : forall r0 : rcd,
+    fold_left (upd parse) seg r0 =
+    {| r_id := r_id r0;
+       r_tags := last (somes e_tags seg) (r_tags r0);
+       r_details := fold_left addc (chunks seg) (r_details r0);
+       r_status := last (somes e_status seg) (r_status r0);
+       r_first := r_first r0;
+       r_last := last (map e_ts seg) (r_last r0) |}.
+  Proof.
+    induction seg as [|e seg IH]; intro r0; [destruct r0; reflexivity|].
+    cbn [fold_left]. rewrite IH. unfold chunks, somes. cbn [flat_map map].
+    rewrite !last_app_opt, last_cons. unfold upd; cbn [r_id r_tags r_details r_status r_first r_last].
+    rewrite fold_left_app. unfold chunk_of.
+    destruct (e_tags e), (e_status e), (e_fname e), (e_fbytes e) as [b|]; try destruct (sempty b); reflexivity.
+  Qed.
+
+  (* ---- names in order of first appearance ---- *)
+  Lemma existsb_eqb_In x l : existsb (Nat.eqb x) l = true <-> In x l.
+  Proof.
+    rewrite existsb_exists. split.
+    - intros [y [Hy E]]. apply Nat.eqb_eq in E. subst; exact Hy.
+    - intro H. exists x. split; [exact H | apply Nat.eqb_refl].
+  Qed.
+
+  Lemma firsts_In l : forall seen x, In x (firsts seen l) <-> In x l /\ ~ In x seen.
+  Proof.
+    induction l as [|y l IH]; intros seen x; simpl; [tauto|].
+    destruct (existsb (Nat.eqb y) seen) eqn:E.
+    - apply existsb_eqb_In in E. rewrite IH. split; [tauto|]. intros [[->|H] Hn]; [contradiction | tauto].
+    - assert (Hy : ~ In y seen) by (intro H; apply existsb_eqb_In in H; congruence).
+      simpl. rewrite IH. simpl. split.
+      + intros [->|[H Hn]]; [tauto|]. split; [tauto|]. intro; apply Hn; tauto.
+      + intros [[->|H] Hn]; [tauto|]. destruct (Nat.eq_dec y x) as [->|Hne]; [tauto|].
+        right. split; [exact H|]. intros [?|?]; [congruence | contradiction].
+  Qed.
+
+  Lemma firsts_NoDup l : forall seen, NoDup (firsts seen l).
+  Proof.
+    induction l as [|y l IH]; intro seen; simpl; [constructor|].
+    destruct (existsb (Nat.eqb y) seen); [apply IH|].
+    constructor; [|apply IH]. rewrite firsts_In. simpl. tauto.
+  Qed.
+
+  Lemma firsts_snoc l : forall seen x,
+    firsts seen (l ++ [x]) = firsts seen l ++ (if existsb (Nat.eqb x) (seen ++ l) then [] else [x]).
+  Proof.
+    induction l as [|y l IH]; intros seen x; simpl.
+    - rewrite app_nil_r. destruct (existsb (Nat.eqb x) seen); reflexivity.
+    - destruct (existsb (Nat.eqb y) seen) eqn:E.
+      + rewrite IH. f_equal.
+        assert (H : existsb (Nat.eqb x) (seen ++ l) = existsb (Nat.eqb x) (seen ++ y :: l)).
+        { apply eq_true_iff_eq. rewrite !existsb_eqb_In, !in_app_iff. simpl.
+          apply existsb_eqb_In in E. split; [tauto|]. intros [?|[<-|?]]; tauto. }
+        rewrite H. reflexivity.
+      + simpl. rewrite IH. f_equal.
+        assert (H : existsb (Nat.eqb x) ((y :: seen) ++ l) = existsb (Nat.eqb x) (seen ++ y :: l)).
+        { apply eq_true_iff_eq. rewrite !existsb_eqb_In. simpl. rewrite !in_app_iff. simpl. tauto. }
+        rewrite H. reflexivity.
+  Qed.
+
+  (* ---- got_file folded over the chunks = per name, the chunks joined and typed by the first ---- *)
+  Definition cname (c : chunk) : nat := fst (fst c).
+
+  Lemma named_snoc n cs c : named n (cs ++ [c]) = named n cs ++ (if Nat.eqb n (cname c) then [c] else []).
+  Proof. unfold named. rewrite filter_app. reflexivity. Qed.
+
+  Lemma named_nil n cs : ~ In n (map cname cs) -> named n cs = [].
+  Proof.
+    induction cs as [|c cs IH]; simpl; intro H; [reflexivity|].
+    destruct (Nat.eqb n (fst (fst c))) eqn:E.
+    - apply Nat.eqb_eq in E. exfalso; apply H; left; symmetry; exact E.
+    - apply IH. intro; apply H; right; assumption.
+  Qed.
+  Lemma named_cons n cs : In n (map cname cs) -> exists c r, named n cs = c :: r.
+  Proof.
+    induction cs as [|c cs IH]; simpl; intro H; [contradiction|].
+    destruct (Nat.eqb n (fst (fst c))) eqn:E; [eauto|].
+    destruct H as [H|H]; [|exact (IH H)]. unfold cname in H. rewrite H, Nat.eqb_refl in E. discriminate.
+  Qed.
+
+  Lemma file_of_other cs c n : n <> cname c -> file_of parse (cs ++ [c]) n = file_of parse cs n.
+  Proof.
+    intro H. unfold file_of. rewrite named_snoc. apply Nat.eqb_neq in H. rewrite H, app_nil_r. reflexivity.
+  Qed.
+
+  Lemma add_bytes_absent n m b (d : list (nat * (CT * string))) :
+    ~ In n (map fst d) -> add_bytes parse n m b d = d ++ [(n, (parse m, b))].
+  Proof.
+    induction d as [|[n' [ct old]] d IH]; simpl; intro H; [reflexivity|].
+    destruct (Nat.eqb n n') eqn:E; [apply Nat.eqb_eq in E; exfalso; apply H; left; symmetry; exact E|].
+    rewrite IH; [reflexivity|]. intro; apply H; right; assumption.
+  Qed.
+
+  Lemma add_bytes_present cs c l : NoDup l -> In (cname c) l -> In (cname c) (map cname cs) ->
+    add_bytes parse (cname c) (snd (fst c)) (snd c) (map (file_of parse cs) l) = map (file_of parse (cs ++ [c])) l.
+  Proof.
+    intros ND Hin Hcs. induction l as [|n l IH]; [contradiction|].
+    inversion ND as [|? ? Hn ND']; subst. cbn [map add_bytes]. unfold file_of at 1.
+    destruct (Nat.eqb (cname c) n) eqn:E.
+    - apply Nat.eqb_eq in E. subst n. f_equal.
+      + unfold file_of. rewrite named_snoc, Nat.eqb_refl.
+        destruct (named_cons _ _ Hcs) as [c0 [r0 Hc0]]. rewrite Hc0. cbn [app].
+        change (c0 :: r0 ++ [c]) with ((c0 :: r0) ++ [c]). rewrite map_app, sjoin_app. cbn [map sjoin fold_right]. rewrite sapp_nil_r. reflexivity.
+      + apply map_ext_in. intros n Hn'. symmetry. apply file_of_other. intro; subst; contradiction.
+    - fold (file_of parse cs n). rewrite file_of_other by (apply Nat.eqb_neq in E; congruence).
+      f_equal. apply IH; [exact ND'|]. destruct Hin as [->|Hin]; [rewrite Nat.eqb_refl in E; discriminate | exact Hin].
+  Qed.
+
+  Lemma map_fst_file_of cs l : map fst (map (file_of parse cs) l) = l.
+  Proof. rewrite map_map. unfold file_of. simpl. apply map_id. Qed.
+
+  Lemma fold_addc cs : fold_left addc cs [] = map (file_of parse cs) (firsts [] (map cname cs)).
+  Proof.
+    induction cs as [|c cs IH] using rev_ind; [reflexivity|].
+    rewrite fold_left_app. cbn [fold_left]. rewrite IH. unfold addc. fold (cname c).
+    rewrite map_app. cbn [map]. rewrite firsts_snoc. cbn [app].
+    destruct (existsb (Nat.eqb (cname c)) (map cname cs)) eqn:E.
+    - apply existsb_eqb_In in E. rewrite app_nil_r.
+      apply add_bytes_present; [apply firsts_NoDup | apply firsts_In; simpl; tauto | exact E].
+    - assert (Hn : ~ In (cname c) (map cname cs)) by (intro H; apply existsb_eqb_In in H; congruence).
+      rewrite add_bytes_absent.
+      + rewrite map_app. cbn [map]. f_equal.
+        * apply map_ext_in. intros n Hin. symmetry. apply file_of_other.
+          apply firsts_In in Hin. intro; subst; tauto.
+        * unfold file_of. rewrite named_snoc, Nat.eqb_refl, (named_nil _ _ Hn). cbn [app map sjoin fold_right].
+          rewrite sapp_nil_r. reflexivity.
+      + rewrite map_fst_file_of. rewrite firsts_In. tauto.
+  Qed.
+
+  (* what the model computes for a segment that starts with a fresh record *)
+  Definition model_record (i : nat) (seg : list event) : rcd :=
+    fold_left (upd parse) seg (create i (match seg with e :: _ => e_ts e | [] => None end)).
+
+  Theorem model_record_spec i seg : model_record i seg = seg_record parse i false seg.
+  Proof.
+    unfold model_record. rewrite fold_upd. unfold seg_record, files. cbn [create r_id r_tags r_details r_status r_first r_last].
+    rewrite fold_addc. reflexivity.
+  Qed.
+
+  Lemma hung_seg_record i seg : hung (seg_record parse i false seg) = seg_record parse i true seg.
+  Proof. reflexivity. Qed.
+End Records.
+Arguments model_record {M CT}.
+
+(* ================= insertion-ordered dictionaries ================= *)
+Section Dict.
+  Context {V : Type}.
+  Implicit Types (d : list (key * V)) (k : key).
+
+  Definition NoDupKeys d := NoDup (map fst d).
+
+  Lemma get_Some_In k d v : get k d = Some v -> In (k, v) d.
+  Proof.
+    induction d as [|[k' v'] d IH]; simpl; [discriminate|].
+    destruct (key_eqb k k') eqn:E; [|auto]. apply key_eqb_spec in E. intro H; inversion H; subst. left; reflexivity.
+  Qed.
+  Lemma get_None_notin k d : get k d = None -> ~ In k (map fst d).
+  Proof.
+    induction d as [|[k' v'] d IH]; simpl; [tauto|].
+    destruct (key_eqb k k') eqn:E; [discriminate|]. intros H [H1|H1]; [|exact (IH H H1)].
+    subst. rewrite key_eqb_refl in E. discriminate.
+  Qed.
+  Lemma notin_get_None k d : ~ In k (map fst d) -> get k d = None.
+  Proof.
+    induction d as [|[k' v'] d IH]; simpl; [reflexivity|]. intro H.
+    destruct (key_eqb k k') eqn:E; [apply key_eqb_spec in E; subst; tauto | apply IH; tauto].
+  Qed.
+  Lemma get_put_same k v d : get k (put k v d) = Some v.
+  Proof.
+    induction d as [|[k' v'] d IH]; simpl; [rewrite key_eqb_refl; reflexivity|].
+    destruct (key_eqb k k') eqn:E; simpl; rewrite E; [reflexivity | exact IH].
+  Qed.
+  Lemma get_put_other k k' v d : k <> k' -> get k (put k' v d) = get k d.
+  Proof.
+    intro H. induction d as [|[k2 v2] d IH]; simpl.
+    - destruct (key_eqb k k') eqn:E; [apply key_eqb_spec in E; contradiction | reflexivity].
+    - destruct (key_eqb k' k2) eqn:E; simpl.
+      + apply key_eqb_spec in E; subst k2.
+        destruct (key_eqb k k') eqn:E2; [apply key_eqb_spec in E2; contradiction | reflexivity].
+      + destruct (key_eqb k k2); [reflexivity | exact IH].
+  Qed.
+  Lemma get_del_other k k' d : k <> k' -> get k (del k' d) = get k d.
+  Proof.
+    intro H. induction d as [|[k2 v2] d IH]; simpl; [reflexivity|].
+    destruct (key_eqb k' k2) eqn:E; simpl.
+    - apply key_eqb_spec in E; subst k2.
+      destruct (key_eqb k k') eqn:E2; [apply key_eqb_spec in E2; contradiction | reflexivity].
+    - destruct (key_eqb k k2); [reflexivity | exact IH].
+  Qed.
+  Lemma In_keys_del x k d : In x (map fst (del k d)) -> In x (map fst d).
+  Proof.
+    induction d as [|[k2 v2] d IH]; simpl; [tauto|].
+    destruct (key_eqb k k2); simpl; tauto.
+  Qed.
+  Lemma In_keys_put x k v d : In x (map fst (put k v d)) -> x = k \/ In x (map fst d).
+  Proof.
+    induction d as [|[k2 v2] d IH]; simpl; [intuition|].
+    destruct (key_eqb k k2); simpl; tauto.
+  Qed.
+  Lemma NoDupKeys_del k d : NoDupKeys d -> NoDupKeys (del k d).
+  Proof.
+    unfold NoDupKeys. induction d as [|[k2 v2] d IH]; simpl; intro H; [constructor|].
+    inversion H; subst. destruct (key_eqb k k2); [assumption|]. simpl. constructor; [|auto].
+    intro Hin. apply In_keys_del in Hin. contradiction.
+  Qed.
+  Lemma NoDupKeys_put k v d : NoDupKeys d -> NoDupKeys (put k v d).
+  Proof.
+    unfold NoDupKeys. induction d as [|[k2 v2] d IH]; simpl; intro H; [repeat constructor; simpl; tauto|].
+    inversion H; subst. destruct (key_eqb k k2) eqn:E; simpl; [constructor; assumption|].
+    constructor; [|auto]. intro Hin. apply In_keys_put in Hin. destruct Hin as [->|Hin]; [|contradiction].
+    rewrite key_eqb_refl in E. discriminate.
+  Qed.
+  Lemma get_del_same k d : NoDupKeys d -> get k (del k d) = None.
+  Proof.
+    unfold NoDupKeys. induction d as [|[k2 v2] d IH]; simpl; intro H; [reflexivity|].
+    inversion H; subst. destruct (key_eqb k k2) eqn:E; simpl.
+    - apply key_eqb_spec in E; subst k2. apply notin_get_None. assumption.
+    - rewrite E. auto.
+  Qed.
+  Lemma Forall_del (P : key * V -> Prop) k d : Forall P d -> Forall P (del k d).
+  Proof.
+    induction 1 as [|[k2 v2] d Hx Hd IH]; simpl; [constructor|].
+    destruct (key_eqb k k2); [assumption | constructor; assumption].
+  Qed.
+  Lemma Forall_put (P : key * V -> Prop) k v d :
+    (forall k', k' = k -> P (k', v)) -> Forall P d -> Forall P (put k v d).
+  Proof.
+    intros Hv. induction 1 as [|[k2 v2] d Hx Hd IH]; simpl; [repeat constructor; auto|].
+    destruct (key_eqb k k2) eqn:E; constructor; auto.
+    apply key_eqb_spec in E. apply Hv. congruence.
+  Qed.
+End Dict.
+
+(* ================= _StreamToTestRecord refines the segment specification ================= *)
+Section Refine.
+  Variable M : Type.
+  Variable CT : Type.
+  Variable parse : option M -> CT.
+  Notation event := (event M).
+  Notation rcd := (rcd CT).
+  Notation segment := (segment M).
+
+  Definition seg_or_nil (o : option (list event)) : list event := match o with Some s => s | None => [] end.
+
+  (* the refinement relation: the in-progress table is the image of the open segments *)
+  Definition absf (ks : key * list event) : key * rcd := (fst ks, model_record parse (fst (fst ks)) (snd ks)).
+  Definition wf_open (open : list (key * list event)) := Forall (fun ks => snd ks <> []) open.
+
+  Lemma get_absf k open :
+    get k (map absf open) = option_map (model_record parse (fst k)) (get k open).
+  Proof.
+    induction open as [|[k' s] r IH]; simpl; [reflexivity|].
+    destruct (key_eqb k k') eqn:E; [|exact IH]. apply key_eqb_spec in E. subst. reflexivity.
+  Qed.
+  Lemma put_absf k s open : put k (model_record parse (fst k) s) (map absf open) = map absf (put k s open).
+  Proof.
+    induction open as [|[k' s'] r IH]; simpl; [reflexivity|].
+    destruct (key_eqb k k') eqn:E; simpl.
+    - apply key_eqb_spec in E. subst. reflexivity.
+    - rewrite IH. reflexivity.
+  Qed.
+  Lemma del_absf k open : del k (map absf open) = map absf (del k open).
+  Proof.
+    induction open as [|[k' s'] r IH]; simpl; [reflexivity|].
+    destruct (key_eqb k k'); simpl; [reflexivity|]. rewrite IH. reflexivity.
+  Qed.
+  Lemma model_record_snoc i seg e : seg <> [] ->
+    model_record parse i (seg ++ [e]) = upd parse (model_record parse i seg) e.
+  Proof.
+    intros H. unfold model_record. rewrite fold_left_app. simpl. destruct seg; [contradiction|reflexivity].
+  Qed.
+  Lemma get_wf k open s : wf_open open -> get k open = Some s -> s <> [].
+  Proof.
+    intros W G. apply get_Some_In in G. unfold wf_open in W. rewrite Forall_forall in W. exact (W _ G).
+  Qed.
+
+  Theorem refines_gen : forall evs open, wf_open open ->
+    consume_from parse true (map absf open) evs = map (record_of parse) (segments open evs).
+  Proof.
+    induction evs as [|e r IH]; intros open W; cbn [consume_from segments].
+    - rewrite <- map_rev, !map_map. apply map_ext. intros [k s]. unfold record_of. simpl.
+      rewrite model_record_spec. reflexivity.
+    - destruct (e_id e) as [i|]; [|apply IH; assumption].
+      rewrite final_table, get_absf. cbn [fst].
+      destruct (get (i, e_route e) open) as [s|] eqn:G; cbn [option_map seg_or_nil].
+      + pose proof (get_wf _ _ _ W G) as Hs.
+        rewrite <- (model_record_snoc i s e Hs).
+        destruct (is_final (e_status e)).
+        * cbn [map]. rewrite del_absf, IH by (apply Forall_del; assumption).
+          unfold record_of at 1. cbn [g_key g_hung g_events fst]. rewrite model_record_spec. reflexivity.
+        * change (model_record parse i (s ++ [e])) with (model_record parse (fst (i, e_route e)) (s ++ [e])).
+          rewrite put_absf. apply IH. apply Forall_put; [|assumption]. intros k' _. simpl. destruct s; discriminate.
+      + change ([] ++ [e]) with [e].
+        change (upd parse (create i (e_ts e)) e) with (model_record parse i [e]).
+        destruct (is_final (e_status e)).
+        * cbn [map]. rewrite del_absf, IH by (apply Forall_del; assumption).
+          unfold record_of at 1. cbn [g_key g_hung g_events fst]. rewrite model_record_spec. reflexivity.
+        * change (model_record parse i [e]) with (model_record parse (fst (i, e_route e)) [e]).
+          rewrite put_absf. apply IH. apply Forall_put; [|assumption]. intros k' _. simpl. discriminate.
+  Qed.
+
+  (* C10_refines: the callbacks are exactly the tests of the specification, in order *)
+  Theorem consume_refines evs : consume parse evs = tests parse evs.
+  Proof. apply (refines_gen evs []). constructor. Qed.
+
+  (* ---------- events without a test id change nothing ---------- *)
+  Definition has_id (e : event) : bool := match e_id e with Some _ => true | None => false end.
+
+  Lemma segments_ignore_none evs : forall open, segments open evs = segments open (filter has_id evs).
+  Proof.
+    induction evs as [|e r IH]; intro open; [reflexivity|]. unfold has_id at 1. cbn [segments filter].
+    destruct (e_id e) as [i|] eqn:Ei; [|apply IH]. cbn [segments]. rewrite Ei.
+    destruct (is_final (e_status e)); rewrite IH; reflexivity.
+  Qed.
+  Theorem consume_ignores_none evs : consume parse evs = consume parse (filter has_id evs).
+  Proof. rewrite !consume_refines. unfold tests. rewrite segments_ignore_none. reflexivity. Qed.
+
+  (* ---------- every id-carrying event belongs to exactly one reported test ---------- *)
+  Definition has_key (k : key) (e : event) : bool :=
+    match e_id e with Some i => key_eqb k (i, e_route e) | None => false end.
+  Definition of_key (k : key) (g : segment) : bool := key_eqb k (g_key g).
+  Definition mkhung (ks : key * list event) : segment := Seg (fst ks) true (snd ks).
+
+  Lemma hung_of_absent k l : ~ In k (map fst l) -> List.concat (map g_events (filter (of_key k) (map mkhung l))) = [].
+  Proof.
+    induction l as [|[k' s'] l IH]; simpl; intro H; [reflexivity|].
+    unfold of_key at 1. simpl. destruct (key_eqb k k') eqn:E; [apply key_eqb_spec in E; subst; tauto|].
+    apply IH. tauto.
+  Qed.
+  Lemma hung_of_present k s l : NoDupKeys l -> In (k, s) l ->
+    List.concat (map g_events (filter (of_key k) (map mkhung l))) = s.
+  Proof.
+    unfold NoDupKeys. induction l as [|[k' s'] l IH]; simpl; intros ND H; [contradiction|].
+    inversion ND; subst. unfold of_key at 1. simpl. destruct H as [H|H].
+    - inversion H; subst. rewrite key_eqb_refl. simpl. rewrite hung_of_absent by assumption. apply app_nil_r.
+    - destruct (key_eqb k k') eqn:E.
+      + apply key_eqb_spec in E; subst k'. exfalso. apply H2. apply (in_map fst) in H. exact H.
+      + apply IH; assumption.
+  Qed.
+
+  Theorem partition_gen : forall evs open, NoDupKeys open -> forall k,
+    List.concat (map g_events (filter (of_key k) (segments open evs)))
+    = seg_or_nil (get k open) ++ filter (has_key k) evs.
+  Proof.
+    induction evs as [|e r IH]; intros open ND k; cbn [segments filter].
+    - rewrite app_nil_r. fold mkhung.
+      assert (NDr : NoDupKeys (rev open)) by (unfold NoDupKeys; rewrite map_rev; apply NoDup_rev; exact ND).
+      destruct (get k open) as [s|] eqn:G; simpl.
+      + apply hung_of_present; [exact NDr|]. apply in_rev. rewrite rev_involutive. apply get_Some_In; exact G.
+      + apply hung_of_absent. rewrite map_rev. intro H. apply in_rev in H. exact (get_None_notin _ _ G H).
+    - unfold has_key at 1. destruct (e_id e) as [i|]; [|apply IH; exact ND].
+      set (k' := (i, e_route e)).
+      destruct (is_final (e_status e)).
+      + cbn [filter]. unfold of_key at 1. cbn [g_key].
+        destruct (key_eqb k k') eqn:E.
+        * apply key_eqb_spec in E. subst k. cbn [map List.concat g_events].
+          rewrite IH by (apply NoDupKeys_del; exact ND). rewrite get_del_same by exact ND.
+          simpl. unfold seg_or_nil. rewrite <- app_assoc. reflexivity.
+        * rewrite IH by (apply NoDupKeys_del; exact ND).
+          rewrite get_del_other; [reflexivity|]. intro; subst. rewrite key_eqb_refl in E; discriminate.
+      + rewrite IH by (apply NoDupKeys_put; exact ND).
+        destruct (key_eqb k k') eqn:E.
+        * apply key_eqb_spec in E. subst k. rewrite get_put_same. simpl. unfold seg_or_nil.
+          rewrite <- app_assoc. reflexivity.
+        * rewrite get_put_other; [reflexivity|]. intro; subst. rewrite key_eqb_refl in E; discriminate.
+  Qed.
+
+  (* the segments of the tests of key k, concatenated in report order, are the events of key k in stream order *)
+  Theorem partition evs k :
+    List.concat (map g_events (filter (of_key k) (segments [] evs))) = filter (has_key k) evs.
+  Proof. apply (partition_gen evs [] (NoDup_nil _) k). Qed.
+
+  (* ---------- the shape of the segments ---------- *)
+  Definition interim (e : event) : Prop := is_final (e_status e) = false.
+  Definition keyed (k : key) (e : event) : Prop := exists i, e_id e = Some i /\ (i, e_route e) = k.
+  (* a reported test: at least one event, all of its key; either it ends with its only final
+     status (reported then), or it has none (reported at stopTestRun) *)
+  Definition seg_ok (g : segment) : Prop :=
+    g_events g <> []
+    /\ Forall (keyed (g_key g)) (g_events g)
+    /\ (if g_hung g then Forall interim (g_events g)
+        else exists init e, g_events g = init ++ [e] /\ is_final (e_status e) = true /\ Forall interim init).
+  Definition open_ok (open : list (key * list event)) : Prop :=
+    Forall (fun ks => snd ks <> [] /\ Forall (keyed (fst ks)) (snd ks) /\ Forall interim (snd ks)) open.
+
+  Lemma get_open_ok k open : open_ok open ->
+    Forall (keyed k) (seg_or_nil (get k open)) /\ Forall interim (seg_or_nil (get k open)).
+  Proof.
+    intro W. destruct (get k open) as [s|] eqn:G; simpl; [|split; constructor].
+    apply get_Some_In in G. unfold open_ok in W. rewrite Forall_forall in W. destruct (W _ G) as [_ [H1 H2]].
+    split; assumption.
+  Qed.
+
+  Theorem segments_shape : forall evs open, open_ok open -> Forall seg_ok (segments open evs).
+  Proof.
+    induction evs as [|e r IH]; intros open W; cbn [segments].
+    - apply Forall_forall. intros g Hg. apply in_map_iff in Hg. destruct Hg as [[k s] [<- Hin]].
+      apply in_rev in Hin. unfold open_ok in W. rewrite Forall_forall in W. destruct (W _ Hin) as [H0 [H1 H2]].
+      repeat split; assumption.
+    - destruct (e_id e) as [i|] eqn:Ei; [|apply IH; exact W].
+      set (k := (i, e_route e)).
+      destruct (get_open_ok k open W) as [Hk Hi]. fold (seg_or_nil (get k open)).
+      assert (Hke : keyed k e) by (exists i; split; [exact Ei | reflexivity]).
+      destruct (is_final (e_status e)) eqn:Ef.
+      + constructor; [|apply IH; apply Forall_del; exact W].
+        repeat split; cbn [g_events g_key g_hung].
+        * destruct (seg_or_nil (get k open)); discriminate.
+        * apply Forall_app; split; [exact Hk | constructor; [exact Hke | constructor]].
+        * exists (seg_or_nil (get k open)), e. repeat split; assumption.
+      + apply IH. apply Forall_put; [|exact W]. intros k' ->. cbn [fst snd]. repeat split.
+        * destruct (seg_or_nil (get k open)); discriminate.
+        * apply Forall_app; split; [exact Hk | constructor; [exact Hke | constructor]].
+        * apply Forall_app; split; [exact Hi | constructor; [exact Ef | constructor]].
+  Qed.
+
+  (* one test reported per final-status event, in the order of those events *)
+  Lemma completed_count : forall evs open,
+    List.length (filter (fun g => negb (g_hung g)) (segments open evs))
+    = List.length (filter (fun e => has_id e && is_final (e_status e)) evs).
+  Proof.
+    induction evs as [|e r IH]; intro open; cbn [segments filter].
+    - induction (rev open) as [|x l IHl]; [reflexivity | exact IHl].
+    - unfold has_id at 1. destruct (e_id e) as [i|]; [|apply IH]. cbn [andb].
+      destruct (is_final (e_status e)); cbn [filter g_hung negb List.length]; rewrite IH; reflexivity.
+  Qed.
+
+  (* every event of every reported test comes from the stream (or from what was already open) *)
+  Lemma segments_events (P : event -> Prop) : forall evs open,
+    Forall P evs -> Forall (fun ks => Forall P (snd ks)) open ->
+    Forall (fun g => Forall P (g_events g)) (segments open evs).
+  Proof.
+    induction evs as [|e r IH]; intros open He Ho; cbn [segments].
+    - apply Forall_forall. intros g Hg. apply in_map_iff in Hg. destruct Hg as [[k s] [<- Hin]].
+      apply in_rev in Hin. rewrite Forall_forall in Ho. exact (Ho _ Hin).
+    - inversion He as [|? ? Pe Pr]; subst.
+      destruct (e_id e) as [i|]; [|apply IH; assumption].
+      assert (Hs : Forall P ((match get (i, e_route e) open with Some s => s | None => [] end) ++ [e])).
+      { apply Forall_app; split; [|constructor; [exact Pe|constructor]].
+        destruct (get (i, e_route e) open) as [s|] eqn:G; [|constructor].
+        apply get_Some_In in G. rewrite Forall_forall in Ho. exact (Ho _ G). }
+      destruct (is_final (e_status e)).
+      + constructor; [exact Hs|]. apply IH; [assumption | apply Forall_del; assumption].
+      + apply IH; [assumption|]. apply Forall_put; [|assumption]. intros k' _. exact Hs.
+  Qed.
+
+  (* ---------- StreamSummary ---------- *)
+  Definition nonexists (r : rcd) : bool := negb (status_eqb (r_status r) Exists).
+  Definition rids_with (p : status -> bool) (ts : list rcd) : list nat := map r_id (filter (fun r => p (r_status r)) ts).
+
+  Lemma fold_gather rs : forall s, s_keyerror s = false ->
+    fold_left gather rs s =
+    Summary (s_run s + List.length (filter nonexists rs)) (s_failures s)
+            (s_errors s ++ rids_with failing rs) (s_skipped s ++ rids_with (status_eqb Skip) rs)
+            (s_xfail s ++ rids_with (status_eqb Xfail) rs) (s_uxsuccess s ++ rids_with (status_eqb Uxsuccess) rs) false.
+  Proof.
+    induction rs as [|r rs IH]; intros s Hk.
+    - destruct s; simpl in *; subst. rewrite Nat.add_0_r, !app_nil_r. reflexivity.
+    - cbn [fold_left]. unfold rids_with, nonexists. cbn [filter].
+      unfold gather at 2. rewrite bucket_table.
+      destruct (r_status r) eqn:Es; cbn [status_eqb negb spec_bucket failing push map List.length];
+        rewrite IH by (cbn; exact Hk); cbn [s_run s_failures s_errors s_skipped s_xfail s_uxsuccess s_keyerror];
+        unfold rids_with, nonexists; rewrite <- ?app_assoc; cbn [app];
+        rewrite ?Nat.add_succ_r; reflexivity.
+  Qed.
+
+  Lemma rids_nonempty p ts : existsb (fun r => p (r_status r)) ts = true -> rids_with p ts <> [].
+  Proof.
+    induction ts as [|r ts IH]; simpl; [discriminate|]. unfold rids_with. simpl.
+    destruct (p (r_status r)); simpl; [discriminate | exact IH].
+  Qed.
+
+  (* ---------- StreamToExtendedDecorator ---------- *)
+  Lemma strip_app (a b : list (logev CT)) : strip (a ++ b) = strip a ++ strip b.
+  Proof. apply filter_app. Qed.
+
+  Lemma strip_replay (r : rcd) : r_status r <> Exists -> strip (replay r) = bracket r.
+  Proof.
+    intro H. unfold replay, bracket. rewrite outcome_table.
+    destruct (r_status r); try contradiction; cbn [spec_outcome];
+      destruct (r_first r), (r_last r); reflexivity.
+  Qed.
+  Lemma strip_replays (rs : list rcd) : Forall (fun r => r_status r <> Exists) rs ->
+    strip (flat_map (@replay CT) rs) = flat_map (@bracket CT) rs.
+  Proof.
+    induction 1 as [|r rs Hr _ IH]; [reflexivity|]. cbn [flat_map]. rewrite strip_app, IH, strip_replay by exact Hr.
+    reflexivity.
+  Qed.
+
+  Lemma last_status_not_exists seg : Forall (fun e : event => not_exists e = true) seg ->
+    forall d, d <> Exists -> last (somes e_status seg) d <> Exists.
+  Proof.
+    induction 1 as [|e seg He _ IH]; intros d Hd; [exact Hd|].
+    unfold somes. cbn [flat_map]. rewrite last_app_opt. apply IH.
+    unfold not_exists in He. destruct (e_status e) as [[]|]; try discriminate; assumption.
+  Qed.
+
+  Lemma tests_not_exists evs : Forall (fun r => r_status r <> Exists) (tests parse (filter not_exists evs)).
+  Proof.
+    unfold tests. apply Forall_forall. intros r Hr. apply in_map_iff in Hr. destruct Hr as [g [<- Hg]].
+    assert (H : Forall (fun g : segment => Forall (fun e => not_exists e = true) (g_events g))
+                       (segments [] (filter not_exists evs))).
+    { apply segments_events; [|constructor]. apply Forall_forall. intros e He. apply filter_In in He. tauto. }
+    rewrite Forall_forall in H. specialize (H _ Hg).
+    unfold record_of, seg_record. cbn [r_status]. apply last_status_not_exists; [exact H | discriminate].
+  Qed.
+
+  Theorem s2e_refines evs : strip (s2e_log parse evs) = ext_expected parse evs.
+  Proof.
+    unfold s2e_log, ext_expected. rewrite !strip_app, consume_refines.
+    rewrite strip_replays by apply tests_not_exists. reflexivity.
+  Qed.
+End Refine.
+
+(* ================= the main theorems for C10's instance ================= *)
+Lemma refl_recs l : list_eqb rec_eqb l l = true.
+Proof. apply recs_eqb_spec; reflexivity. Qed.
+Lemma refl_ids l : ids_eqb l l = true.
+Proof. apply nats_eqb_spec; reflexivity. Qed.
+Lemma refl_levs l : list_eqb lev_eqb l l = true.
+Proof. apply levs_eqb_spec; reflexivity. Qed.
+
+Theorem summary_model_ok (es : list ev) : summary_okb (tests parse10 es) (sum_obs (summarize parse10 es)) = true.
+Proof.
+  unfold summarize. rewrite consume_refines, fold_gather by reflexivity.
+  unfold summary_okb, sum_obs, was_successful.
+  cbn [so_run so_failures so_errors so_skipped so_xfail so_uxs so_ok s_run s_failures s_errors s_skipped s_xfail
+       s_uxsuccess summary0 app Nat.add].
+  change (rids_with nat ?p ?t) with (ids_with p t). unfold is_st.
+  rewrite Nat.eqb_refl, !refl_ids. cbn [andb orb].
+  destruct (existsb (fun r => failing (r_status r)) (tests parse10 es)) eqn:E; [|reflexivity].
+  apply rids_nonempty in E. change (rids_with nat failing ?t) with (ids_with failing t) in E.
+  destruct (ids_with failing (tests parse10 es)); [contradiction | reflexivity].
+Qed.
+
+Theorem model_meets_spec : forall i, spec_okb i (model i) = true.
+Proof.
+  intro i. unfold spec_okb, model. cbn [o_dicts o_sum o_ext].
+  rewrite consume_refines, refl_recs, summary_model_ok, s2e_refines, refl_levs. reflexivity.
+Qed.
+
+Theorem spec_okb_sound : forall i o, spec_okb i o = true -> Spec i o.
+Proof.
+  intros i o H. unfold spec_okb in H. rewrite !andb_true_iff in H. destruct H as [[H1 H2] H3].
+  apply recs_eqb_spec in H1. apply levs_eqb_spec in H3.
+  split; [exact H1|]. split; [|exact H3].
+  unfold summary_okb in H2. rewrite !andb_true_iff in H2.
+  destruct H2 as [[[[[R S] X] U] EF] W].
+  apply Nat.eqb_eq in R. apply nats_eqb_spec in S. apply nats_eqb_spec in X. apply nats_eqb_spec in U.
+  repeat split; try assumption.
+  - apply orb_true_iff in EF. destruct EF as [EF|EF]; apply andb_true_iff in EF; destruct EF as [A B];
+      apply nats_eqb_spec in A; apply nats_eqb_spec in B; [left | right]; split; assumption.
+  - intros [r [Hin Hf]].
+    assert (Hx : existsb (fun r => failing (r_status r)) (tests parse10 (evs i)) = true)
+      by (apply existsb_exists; exists r; split; assumption).
+    rewrite Hx in W. destruct (so_ok (o_sum o)); [discriminate | reflexivity].
+Qed.
+
+Arguments has_id {M}. Arguments has_key {M}. Arguments of_key {M}. Arguments seg_ok {M}.
+
+(* ================= statements in the form Props/C10.v gives them ================= *)
+Theorem record_fields : forall M CT (parse : option M -> CT) i (seg : list (event M)),
+  let r := fold_left (upd parse) seg (create i (match seg with e :: _ => e_ts e | [] => None end)) in
+  r_id r = i
+  /\ r_status r = last (somes e_status seg) Unknown
+  /\ r_tags r = last (somes e_tags seg) []
+  /\ r_first r = match seg with e :: _ => e_ts e | [] => None end
+  /\ r_last r = last (map e_ts seg) None
+  /\ r_details r = map (file_of parse (chunks seg)) (firsts [] (map (fun c => fst (fst c)) (chunks seg)))
+  /\ hung r = seg_record parse i true seg.
+Proof.
+  intros M CT parse i seg r. subst r. fold (model_record parse i seg). rewrite model_record_spec.
+  repeat split.
+Qed.
+
+Theorem summary_fields : forall M CT (parse : option M -> CT) (es : list (event M)),
+  let s := summarize parse es in
+  let ts := tests parse es in
+  let ids p := map r_id (filter (fun r => p (r_status r)) ts) in
+  s_run s = List.length (filter (fun r => negb (status_eqb (r_status r) Exists)) ts)
+  /\ s_errors s = ids failing /\ s_failures s = []
+  /\ s_skipped s = ids (status_eqb Skip) /\ s_xfail s = ids (status_eqb Xfail)
+  /\ s_uxsuccess s = ids (status_eqb Uxsuccess)
+  /\ s_keyerror s = false
+  /\ ((exists r, In r ts /\ failing (r_status r) = true) -> was_successful s = false).
+Proof.
+  intros M CT parse es s ts ids. subst s. unfold summarize. rewrite consume_refines. fold ts.
+  rewrite fold_gather by reflexivity. cbn. repeat split.
+  intros [r [Hin Hf]]. unfold was_successful. cbn.
+  assert (E : existsb (fun r => failing (r_status r)) ts = true) by (apply existsb_exists; eauto).
+  apply rids_nonempty in E. destruct (rids_with CT failing ts); [contradiction | reflexivity].
+Qed.
+
+Theorem shape_and_count : forall M (es : list (event M)),
+  Forall seg_ok (segments [] es)
+  /\ List.length (filter (fun g => negb (g_hung g)) (segments [] es))
+     = List.length (filter (fun e => has_id e && is_final (e_status e)) es).
+Proof. exact (fun M es => conj (segments_shape M es [] (Forall_nil _)) (completed_count M es [])). Qed.
+
+Theorem tables_ok :
+  (forall st, final st = is_final st)
+  /\ (forall st, outcome_of st = spec_outcome st)
+  /\ (forall st, bucket_of st = Some (spec_bucket st))
+  /\ forallb (fun s => existsb (String.eqb s) summary_keys) ("inprogress"%string :: final_states) = true
+  /\ (forall s, In s final_states <-> exists st, st <> Inprogress /\ status_name st = s).
+Proof. exact (conj final_table (conj outcome_table (conj bucket_table (conj handlers_cover_states states_are_the_eight)))). Qed.
